@@ -36,11 +36,29 @@ var preludeParts = []preludePart{
 (assert (forall ((a (Array Int tq_Str)) (o Int) (k Int))
   (! (=> (> k 0) (= (tq_sumlen a o k) (+ (tq_sumlen a o (- k 1)) (tq_slen (select a (+ o (- k 1)))))))
      :pattern ((tq_sumlen a o k)))))`},
+	{"tq_ascii ", `(declare-fun tq_ascii ((Array Int Int) Int Int) Bool)
+(declare-fun tq_ascii_w ((Array Int Int) Int Int) Int)
+(assert (forall ((a (Array Int Int)) (o Int) (n Int) (j Int))
+  (! (=> (and (tq_ascii a o n) (<= o j) (< j (+ o n))) (<= (select a j) 127))
+     :pattern ((tq_ascii a o n) (select a j)))))
+(assert (forall ((a (Array Int Int)) (o Int) (n Int))
+  (! (or (tq_ascii a o n)
+         (and (<= o (tq_ascii_w a o n)) (< (tq_ascii_w a o n) (+ o n)) (> (select a (tq_ascii_w a o n)) 127)))
+     :pattern ((tq_ascii a o n)))))`},
+	{"tq_okS ", `(declare-fun tq_okS ((Array Int tq_Str)) Bool)
+(assert (forall ((a (Array Int tq_Str)) (k Int)) (! (=> (tq_okS a) (and (<= 0 (tq_slen (select a k))) (<= (tq_slen (select a k)) 1099511627776))) :pattern ((tq_okS a) (select a k)))))
+(assert (forall ((a (Array Int tq_Str)) (k Int) (s tq_Str)) (! (=> (and (tq_okS a) (<= 0 (tq_slen s)) (<= (tq_slen s) 1099511627776)) (tq_okS (store a k s))) :pattern ((tq_okS (store a k s))))))`},
 	{"tq_sumint ", `(declare-fun tq_sumint ((Array Int Int) Int Int) Int)
 (assert (forall ((a (Array Int Int)) (o Int)) (! (= (tq_sumint a o 0) 0) :pattern ((tq_sumint a o 0)))))
 (assert (forall ((a (Array Int Int)) (o Int) (k Int))
   (! (=> (> k 0) (= (tq_sumint a o k) (+ (tq_sumint a o (- k 1)) (select a (+ o (- k 1))))))
      :pattern ((tq_sumint a o k)))))`},
+	{"tq_sumint ", `(assert (forall ((a (Array Int Int)) (p Int) (v Int) (o Int) (k Int))
+  (! (=> (or (< p o) (>= p (+ o k))) (= (tq_sumint (store a p v) o k) (tq_sumint a o k)))
+     :pattern ((tq_sumint (store a p v) o k)))))`},
+	{"tq_sumlen ", `(assert (forall ((a (Array Int tq_Str)) (p Int) (v tq_Str) (o Int) (k Int))
+  (! (=> (or (< p o) (>= p (+ o k))) (= (tq_sumlen (store a p v) o k) (tq_sumlen a o k)))
+     :pattern ((tq_sumlen (store a p v) o k)))))`},
 	{"tq_skey ", `(declare-fun tq_skey (tq_Str) Int)`},
 	{"tq_rkey ", `(declare-fun tq_rkey (tq_Ref) Int)
 (assert (forall ((a tq_Ref) (b tq_Ref)) (! (=> (= (tq_rkey a) (tq_rkey b)) (= a b)) :pattern ((tq_rkey a) (tq_rkey b)))))`},
@@ -63,6 +81,14 @@ var preludeJoint = []struct {
 	triggers []string
 	text     string
 }{
+	{[]string{"tq_sumlen ", "tq_okS "}, `(assert (forall ((a (Array Int tq_Str)) (o Int) (i Int) (j Int))
+  (! (=> (and (tq_okS a) (<= 0 i) (<= i j)) (<= (tq_sumlen a o i) (tq_sumlen a o j)))
+     :pattern ((tq_sumlen a o i) (tq_sumlen a o j)))))
+(assert (forall ((a (Array Int tq_Str)) (o Int) (k Int))
+  (! (=> (and (tq_okS a) (<= 0 k)) (and (<= 0 (tq_sumlen a o k)) (<= (tq_sumlen a o k) 1125899906842624)))
+     :pattern ((tq_sumlen a o k)))))`},
+	{[]string{"tq_spliceS ", "tq_okS "}, `(assert (forall ((d (Array Int tq_Str)) (o Int) (s (Array Int tq_Str)) (so Int) (n Int))
+  (! (=> (and (tq_okS d) (tq_okS s)) (tq_okS (tq_spliceS d o s so n))) :pattern ((tq_okS (tq_spliceS d o s so n))))))`},
 	{[]string{"tq_seqof ", "tq_eps"}, `(assert (forall ((a (Array Int Int)) (o Int)) (! (= (tq_seqof a o 0) tq_eps) :pattern ((tq_seqof a o 0)))))`},
 	{[]string{"tq_cat ", "tq_eps"}, `(assert (forall ((s tq_Seq)) (! (= (tq_cat s tq_eps) s) :pattern ((tq_cat s tq_eps)))))`},
 	{[]string{"tq_seqof ", "tq_seq1 "}, `(assert (forall ((a (Array Int Int)) (o Int)) (! (= (tq_seqof a o 1) (tq_seq1 (select a o))) :pattern ((tq_seqof a o 1)))))`},
@@ -77,6 +103,8 @@ var preludeJoint = []struct {
   (! (=> (and (<= 0 i) (< i n)) (= (tq_at (tq_seqof a o n) i) (select a (+ o i))))
      :pattern ((tq_at (tq_seqof a o n) i)))))`},
 }
+
+var raceSem = make(chan struct{}, 5)
 
 type SolveResult struct {
 	Status string // unsat | sat | unknown | timeout | error
@@ -116,6 +144,7 @@ func (e *Engine) smtText(hyps []*Term, goal *Term, produceModel bool) string {
 			fmt.Fprintf(&body, "(assert (forall ((i Int)) (! (and (<= 0 (select %s i)) (<= (select %s i) 255)) :pattern ((select %s i)))))\n", name, name, name)
 		case srt == SArrS:
 			fmt.Fprintf(&body, "(assert (forall ((k Int)) (! (and (<= 0 (tq_slen (select %s k))) (<= (tq_slen (select %s k)) %s) (<= 0 (tq_soff (select %s k)))) :pattern ((select %s k)))))\n", name, name, maxLen.String(), name, name)
+			fmt.Fprintf(&body, "(assert (tq_okS %s))\n", name)
 			fmt.Fprintf(&body, "(assert (forall ((k Int) (i Int)) (! (and (<= 0 (select (tq_sarr (select %s k)) i)) (<= (select (tq_sarr (select %s k)) i) 255)) :pattern ((select (tq_sarr (select %s k)) i)))))\n", name, name, name)
 		}
 	}
@@ -258,7 +287,9 @@ func (s *Solver) Discharge(name string, text string) SolveResult {
 		s.cleanup(file, r)
 		return r
 	}
-	// race
+	// race (limited concurrency: three processes per race)
+	raceSem <- struct{}{}
+	defer func() { <-raceSem }()
 	ch := make(chan SolveResult, len(solverCmds))
 	for _, sc := range solverCmds {
 		go func(sc solverCmd) { ch <- runSolver(sc, file, s.timeout) }(sc)
@@ -282,6 +313,24 @@ func (s *Solver) Discharge(name string, text string) SolveResult {
 	}
 	s.cleanup(file, best)
 	return best
+}
+
+// Cover runs a satisfiability probe (short timeout, one solver).
+func (s *Solver) Cover(name, text string) SolveResult {
+	s.mu.Lock()
+	s.nQueries++
+	id := s.nQueries
+	s.mu.Unlock()
+	file := filepath.Join(s.workDir, fmt.Sprintf("c%05d_%s.smt2", id, sanitize(name)))
+	os.WriteFile(file, []byte(text), 0o644)
+	r := runSolver(solverCmds[0], file, 2*time.Second)
+	s.mu.Lock()
+	s.secs[r.Solver] += r.Secs
+	s.mu.Unlock()
+	if !s.keep {
+		os.Remove(file)
+	}
+	return r
 }
 
 func (s *Solver) account(r SolveResult) {
@@ -317,6 +366,7 @@ type OblResult struct {
 // dischargeAll groups obligations by name and decides every path instance.
 func (e *Engine) dischargeAll(s *Solver, obls []*Obligation, workers int) []*OblResult {
 	byName := map[string]*OblResult{}
+	covers := map[string][]*Obligation{}
 	var order []string
 	type job struct {
 		o    *Obligation
@@ -336,7 +386,29 @@ func (e *Engine) dischargeAll(s *Solver, obls []*Obligation, workers int) []*Obl
 			r.Trivial++
 			continue
 		}
+		if o.Kind == "cover" {
+			covers[o.Name] = append(covers[o.Name], o)
+			continue
+		}
 		jobs = append(jobs, job{o, r, e.smtText(o.Hyps, o.Goal, false)})
+	}
+	// cover obligations: satisfied as soon as one instance is not refuted
+	type cjob struct {
+		r     *OblResult
+		texts []string
+	}
+	var cjobs []cjob
+	for name, os := range covers {
+		cj := cjob{r: byName[name]}
+		// try the shortest path conditions first; at most 6 instances
+		sort.Slice(os, func(i, j int) bool { return len(os[i].Hyps) < len(os[j].Hyps) })
+		for i, o := range os {
+			if i >= 6 {
+				break
+			}
+			cj.texts = append(cj.texts, e.smtText(o.Hyps, o.Goal, false))
+		}
+		cjobs = append(cjobs, cj)
 	}
 	var wg sync.WaitGroup
 	var mu sync.Mutex
@@ -360,6 +432,29 @@ func (e *Engine) dischargeAll(s *Solver, obls []*Obligation, workers int) []*Obl
 			}
 			mu.Unlock()
 		}(j)
+	}
+	for _, cj := range cjobs {
+		wg.Add(1)
+		sem <- struct{}{}
+		go func(cj cjob) {
+			defer wg.Done()
+			defer func() { <-sem }()
+			allUnsat := true
+			for _, t := range cj.texts {
+				res := s.Cover(cj.r.Name, t)
+				if res.Status != "unsat" {
+					allUnsat = false
+					break
+				}
+			}
+			mu.Lock()
+			if allUnsat {
+				cj.r.Status = "proved" // = vacuous: every instance refuted
+			} else {
+				cj.r.Status = "failed" // = covered
+			}
+			mu.Unlock()
+		}(cj)
 	}
 	wg.Wait()
 	sort.Strings(order)
